@@ -166,6 +166,16 @@ impl<'a> Visitor for Enumerate<'a> {
                         // the property grants "a few units in the last place"; single-call
                         // operations are bit-equal on the current tree, the check allows 4 ulp
                         let few_ulp = (r.to64() - plain.to64()).abs() <= 8.0 * F::U * plain.to64().abs();
+                        // a zero must carry the sign the float operation gives it (1/x, atan2 and
+                        // the sign predicates of later steps depend on it)
+                        if !same && r.to64() == 0.0 && plain.to64() == 0.0 {
+                            st.violation(Violation {
+                                sig: format!("{} {} re-vs-float sign-of-zero", op.name(), l.type_name),
+                                case: case(),
+                                what: format!("real part {:e} but the float operation gives {:e} (sign of zero)", r.to64(), plain.to64()),
+                            });
+                            return;
+                        }
                         if !same && (!few_ulp || !plain.is_finite() || !r.is_finite()) {
                             st.violation(Violation {
                                 sig: format!("{} {} re-vs-float bits", op.name(), l.type_name),
@@ -308,6 +318,36 @@ macro_rules! cmp_checks {
                                     case: json!({"type": $name, "a": a as f64, "b": b as f64}),
                                     what: format!("abs_sub({a:e},{b:e}) has real part {got:e}, the float gives {want:e}"),
                                 });
+                            }
+                        }
+                        // the sign methods of nalgebra's field interface: real part as on floats (signed
+                        // zeros included), and the parts are the operand's own, negated with the real part
+                        if vb == 0 {
+                            use nalgebra::{ComplexField, RealField};
+                            let neg = -x.clone();
+                            let sel = |flip: bool| if flip { format!("{:?}", neg) } else { format!("{:?}", x) };
+                            let items: [(&str, String, $f, $f, Option<bool>); 6] = [
+                                ("ComplexField::abs", format!("{:?}", ComplexField::abs(x.clone())), ComplexField::abs(x.clone()).re, ComplexField::abs(a), Some(a.is_sign_negative())),
+                                ("modulus", format!("{:?}", ComplexField::modulus(x.clone())), ComplexField::modulus(x.clone()).re, ComplexField::modulus(a), Some(a.is_sign_negative())),
+                                ("norm1", format!("{:?}", ComplexField::norm1(x.clone())), ComplexField::norm1(x.clone()).re, ComplexField::norm1(a), Some(a.is_sign_negative())),
+                                ("simd_abs", format!("{:?}", simba::simd::SimdComplexField::simd_abs(x.clone())), simba::simd::SimdComplexField::simd_abs(x.clone()).re, ComplexField::abs(a), Some(a.is_sign_negative())),
+                                ("copysign", format!("{:?}", RealField::copysign(x.clone(), y.clone())), RealField::copysign(x.clone(), y.clone()).re, RealField::copysign(a, b), Some(a.is_sign_negative() != b.is_sign_negative())),
+                                ("neg", format!("{:?}", neg), neg.re, -a, None),
+                            ];
+                            for (m, got_dbg, got, want, flip) in items {
+                                $st.evaluations += 1;
+                                let re_ok = got.to_bits() == want.to_bits() || (got.is_nan() && want.is_nan());
+                                let parts_ok = match flip {
+                                    Some(f) if !a.is_nan() => got_dbg == sel(f),
+                                    _ => true,
+                                };
+                                if !re_ok || !parts_ok {
+                                    $st.violation(Violation {
+                                        sig: format!("sign method {m} {}", $name),
+                                        case: json!({"type": $name, "a": a as f64, "b": b as f64, "variant_a": va}),
+                                        what: format!("{m}({a:e}{}) gives {got_dbg}; the float method gives {want:e} and the operand is {:?}", if m == "copysign" { format!(", {b:e}") } else { String::new() }, x),
+                                    });
+                                }
                             }
                         }
                         if x.partial_cmp(&y) != a.partial_cmp(&b) {
